@@ -174,7 +174,8 @@ _AS_CACHE: dict = {}
 
 def gen_asm_source(rng, sections=None, random_bytes_p=0.35):
     """AT&T source for GNU as: several sections, code from the vocabulary or raw bytes."""
-    pool = [".text", ".init", ".plt", ".plt.got", ".mycode", ".fini", ".data", ".rodata", "mycode", "__ex_table", ".text.cold", "my.sec-1", "text"]
+    pool = [".text", ".init", ".plt", ".plt.got", ".mycode", ".fini", ".data", ".rodata", "mycode", "__ex_table", ".text.cold", "my.sec-1", "text",
+            "a b", "my$sec", "sec;x", "-dash", ".te*xt"]
     if sections is None:
         k = rng.randrange(1, 5)
         sections = [".text"] if rng.random() < 0.5 else []
@@ -195,7 +196,7 @@ def gen_asm_source(rng, sections=None, random_bytes_p=0.35):
         elif sec == ".rodata":
             out.append('\t.section .rodata,"a",@progbits')
         else:
-            out.append(f'\t.section {sec},"ax",@progbits')
+            out.append(f'\t.section "{sec}","ax",@progbits')
         labels = []
         body = []
         n = rng.randrange(2, 14)
